@@ -83,7 +83,7 @@ Definition nary (op : arith) (e : expr) : expr :=
 
 (* shl / shr (non-negative constant count) and the bitwise operators: binary.
    The shape of the two shift folds is read from ir/mod.rs by
-   translate/gen_fold.py (Gen/FoldFacts.v): limit, value beyond it, `<<` / `>>`
+   translate/gen_foldfacts.py (Gen/FoldFacts.v): limit, value beyond it, `<<` / `>>`
    on i64 values below it. *)
 Definition fold_shift (op : arith) (x y : Z) : Z :=
   match op with
